@@ -328,18 +328,11 @@ class TheoryOracle(walkers.DagWalker):
         theory_out = args[0]
         for t in args[1:]:
             theory_out = theory_out.combine(t)
-        # Check for non-linear
-        left, right = formula.args()
-        if len(left.get_free_variables()) != 0 and \
-           len(right.get_free_variables()) != 0:
+        # Check for non-linear: any division by a non-constant term
+        # (or by zero) is non-linear
+        right = formula.arg(1)
+        if len(right.get_free_variables()) != 0 or right.is_zero():
             theory_out = theory_out.set_linear(False)
-        elif formula.arg(1).is_zero():
-            # DivBy0 is non-linear
-            theory_out = theory_out.set_linear(False)
-        else:
-            theory_out = theory_out.combine(args[1])
-        return theory_out
-
         # This is  not in DL anymore
         theory_out = theory_out.set_difference_logic(False)
         return theory_out
